@@ -10,11 +10,12 @@
 (*   outcome    "running" | "ok" | "circular" | "undefined" | "unused" |   *)
 (*              "redefinition"                                             *)
 (*   rules      the assembled rule set: Seq([file, head, refs])            *)
-(* Actions: ImportStmt (-> BeginFile | Skip | Circular), FinishFile        *)
-(* (-> checks of f's imports, prefix allocation, renaming, assembly), Emit *)
-(* (prints the graph with the specification's expectation as JSON).        *)
+(* Actions: at an import statement BeginFile | SkipParsed | Circular; at   *)
+(* the end of a file RejectImport (undefined / redefinition / unused) or   *)
+(* FinishFile (prefix allocation, renaming, assembly); Emit prints the     *)
+(* graph with the specification's expectation as JSON for the harness.     *)
 (***************************************************************************)
-EXTENDS ImportsDef, SequencesExt, Json
+EXTENDS ImportsDef, SequencesExt, Json, IOUtils
 
 CONSTANT MaxN          \* number of imported files (main excluded): 1..3
 
@@ -85,8 +86,15 @@ AClose(a, S) == LET T == S \cup UNION {a[f] : f \in S}
                 IN IF T = S THEN S ELSE AClose(a, T)
 AReachAll(n, a) == AClose(a, {1}) = 1..(n + 1)
 ACyclic(n, a) == \E f \in 1..(n + 1) : f \in AClose(a, a[f])
-AcAdjs(n) == {a \in Adjs(n) : AReachAll(n, a) /\ ~ACyclic(n, a)}
-CyAdjs(n) == {a \in Adjs(n) : AReachAll(n, a) /\ ACyclic(n, a)}
+(* The quick tier explores one third of the adjacencies over 3 imported     *)
+(* files (environment variable C12_SLICE = "0" | "1" | "2", chosen from the *)
+(* seed); "all" (default, thorough tier) explores every adjacency.          *)
+Slice == IF "C12_SLICE" \in DOMAIN IOEnv THEN IOEnv.C12_SLICE ELSE "all"
+Code(n, a) == SumSet({f * 7 + SumSet(a[f]) * f : f \in 1..(n + 1)})
+InSlice(n, a) == \/ n < 3 \/ Slice = "all"
+                 \/ Slice = ToString(Code(n, a) % 3)
+AcAdjs(n) == {a \in Adjs(n) : AReachAll(n, a) /\ ~ACyclic(n, a) /\ InSlice(n, a)}
+CyAdjs(n) == {a \in Adjs(n) : AReachAll(n, a) /\ ACyclic(n, a) /\ InSlice(n, a)}
 HasPair(n, a) == \E f \in 1..(n + 1) : Cardinality(a[f]) = 2
 
 (* ord = 2 (descending statement order) only differs if some file has 2 imports *)
@@ -98,14 +106,29 @@ Cyc(N, Styles, Nams, Vars) ==
   UNION {{Mk(n, a, 1, s, m, v) : a \in CyAdjs(n), s \in Styles, m \in Nams,
                                  v \in Vars} : n \in N}
 
-Accepted == Acc(1..MaxN, 1..2, 1..3, Namings, Variants)
-Doubled == {Double(x) : x \in Acc(1..MaxN, {1}, 1..3, {1, 2}, {1, 2})}
-Cycles == Cyc(1..MaxN, 1..3, {1}, {1}) \cup Cyc(1..2, 1..3, {2}, {2})
-ErrBase == Acc(1..MaxN, {1}, 1..3, {1}, {1, 2})
-Errors == UNION {{Inject(x, k, fj[1], fj[2]) : fj \in ImAllImps(x)} :
-                   x \in ErrBase, k \in {"undefined", "unused", "redefinition"}}
+(* The enumeration is cut into shards (environment variable C12_SHARD) so  *)
+(* that the harness can run them as parallel TLC processes; "all" = union. *)
+Shard == IF "C12_SHARD" \in DOMAIN IOEnv THEN IOEnv.C12_SHARD ELSE "all"
+Shards == {"acc1", "acc2", "acc3", "acc4", "acc5", "dbl", "cyc1", "cyc2", "cyc3",
+           "undefined", "unused", "redefinition"}
 
-Graphs == Accepted \cup {x \in Doubled \cup Cycles \cup Errors : ImInFragment(x)}
+AcceptedN(m) == Acc(1..MaxN, 1..2, 1..3, {m}, Variants)
+Doubled == {Double(x) : x \in Acc(1..MaxN, {1}, 1..3, {1, 2}, {1, 2})}
+CyclesS(s) == Cyc(1..MaxN, {s}, {1}, {1}) \cup Cyc(1..2, {s}, {2}, {2})
+ErrBase == Acc(1..MaxN, {1}, 1..3, {1}, {1, 2})
+ErrorsK(k) == UNION {{Inject(x, k, fj[1], fj[2]) : fj \in ImAllImps(x)} : x \in ErrBase}
+Fr(S) == {x \in S : ImInFragment(x)}
+
+GraphsOf(sh) ==
+  CASE sh = "acc1" -> AcceptedN(1) [] sh = "acc2" -> AcceptedN(2)
+    [] sh = "acc3" -> AcceptedN(3) [] sh = "acc4" -> AcceptedN(4)
+    [] sh = "acc5" -> AcceptedN(5)
+    [] sh = "dbl" -> Fr(Doubled)
+    [] sh = "cyc1" -> Fr(CyclesS(1)) [] sh = "cyc2" -> Fr(CyclesS(2))
+    [] sh = "cyc3" -> Fr(CyclesS(3))
+    [] sh \in {"undefined", "unused", "redefinition"} -> Fr(ErrorsK(sh))
+Graphs == IF Shard = "all" THEN UNION {GraphsOf(sh) : sh \in Shards}
+          ELSE GraphsOf(Shard)
 
 -----------------------------------------------------------------------------
 VARIABLES g, parsed, stack, outcome, opens, rules, emitted
@@ -152,51 +175,54 @@ Entries(f, pref, pp) ==
         [file |-> f, head |-> MRename(f, pref, pp, lr[i].head),
          refs |-> {MRename(f, pref, pp, n) : n \in lr[i].refs}]]
 
-BeginFile(t) ==
-  /\ parsed' = [parsed EXCEPT ![t] = Open]
-  /\ stack' = Append(stack, [f |-> t, pc |-> 1])
-  /\ opens' = [opens EXCEPT ![t] = @ + 1]
+Running == outcome = "running"
+AtImport == Running /\ Top.pc <= Len(g.imps[Top.f])
+AtEnd == Running /\ Top.pc > Len(g.imps[Top.f])
+Target == g.imps[Top.f][Top.pc].t
+
+BeginFile ==   \* import of a file not seen yet: ParseFile recursion
+  /\ AtImport /\ parsed[Target].st = "absent"
+  /\ parsed' = [parsed EXCEPT ![Target] = Open]
+  /\ stack' = Append(stack, [f |-> Target, pc |-> 1])
+  /\ opens' = [opens EXCEPT ![Target] = @ + 1]
   /\ UNCHANGED <<g, outcome, rules, emitted>>
 
-Skip ==        \* the file was parsed before: it is not parsed again
+SkipParsed ==  \* the file was parsed before: it is not parsed again
+  /\ AtImport /\ parsed[Target].st = "done"
   /\ stack' = [stack EXCEPT ![Len(stack)].pc = @ + 1]
   /\ UNCHANGED <<g, parsed, outcome, opens, rules, emitted>>
 
-Circular ==
+Circular ==    \* the file is being parsed further down the stack
+  /\ AtImport /\ parsed[Target].st = "open"
   /\ outcome' = "circular"
   /\ UNCHANGED <<g, parsed, stack, opens, rules, emitted>>
 
-ImportStmt(f, pc) ==
-  LET t == g.imps[f][pc].t
-  IN CASE parsed[t].st = "open" -> Circular
-       [] parsed[t].st = "absent" -> BeginFile(t)
-       [] parsed[t].st = "done" -> Skip
+ImpKind(f, j) ==
+  LET i == g.imps[f][j]
+  IN IF i.pred \notin ImDefs(i.t) THEN "undefined"
+     ELSE IF ImLocal(i) \in ImDefs(f) THEN "redefinition"
+     ELSE IF ~i.used THEN "unused" ELSE "fine"
+BadImps(f) == {j \in 1..Len(g.imps[f]) : ImpKind(f, j) # "fine"}
 
-FinishFile(f) ==
-  LET imps == g.imps[f]
-      Kind(j) == IF imps[j].pred \notin ImDefs(imps[j].t) THEN "undefined"
-                 ELSE IF ImLocal(imps[j]) \in ImDefs(f) THEN "redefinition"
-                 ELSE IF ~imps[j].used THEN "unused" ELSE "fine"
-      B == {j \in 1..Len(imps) : Kind(j) # "fine"}
-      pref == IF f = 1 THEN "" ELSE ImPrefix(g.files[f].path, Taken)
-      pp == [parsed EXCEPT ![f] = Done(pref)]
-  IN IF B # {}
-     THEN /\ outcome' = Kind(CHOOSE j \in B : \A k \in B : j <= k)
-          /\ UNCHANGED <<g, parsed, stack, opens, rules, emitted>>
-     ELSE /\ parsed' = pp
-          /\ rules' = IF f = 1 THEN Entries(f, pref, pp) \o rules
-                      ELSE rules \o Entries(f, pref, pp)
-          /\ IF f = 1
-             THEN stack' = <<>> /\ outcome' = "ok"
-             ELSE /\ stack' = [SubSeq(stack, 1, Len(stack) - 1)
-                                 EXCEPT ![Len(stack) - 1].pc = @ + 1]
-                  /\ outcome' = outcome
-          /\ UNCHANGED <<g, opens, emitted>>
+RejectImport ==  \* end of file f: one of its imports is undefined / redefined / unused
+  /\ AtEnd /\ BadImps(Top.f) # {}
+  /\ outcome' = ImpKind(Top.f, CHOOSE j \in BadImps(Top.f) : \A k \in BadImps(Top.f) : j <= k)
+  /\ UNCHANGED <<g, parsed, stack, opens, rules, emitted>>
 
-Step ==
-  /\ outcome = "running"
-  /\ IF Top.pc <= Len(g.imps[Top.f]) THEN ImportStmt(Top.f, Top.pc)
-     ELSE FinishFile(Top.f)
+FinishFile ==    \* end of file f: allocate the prefix, rename, hand the rules over
+  /\ AtEnd /\ BadImps(Top.f) = {}
+  /\ LET f == Top.f
+         pref == IF f = 1 THEN "" ELSE ImPrefix(g.files[f].path, Taken)
+         pp == [parsed EXCEPT ![f] = Done(pref)]
+     IN /\ parsed' = pp
+        /\ rules' = IF f = 1 THEN Entries(f, pref, pp) \o rules
+                    ELSE rules \o Entries(f, pref, pp)
+        /\ IF f = 1
+           THEN stack' = <<>> /\ outcome' = "ok"
+           ELSE /\ stack' = [SubSeq(stack, 1, Len(stack) - 1)
+                               EXCEPT ![Len(stack) - 1].pc = @ + 1]
+                /\ outcome' = outcome
+  /\ UNCHANGED <<g, opens, emitted>>
 
 CaseRec ==
   [g |-> g, expect |-> ImExpect(g), machine |-> outcome,
@@ -213,7 +239,7 @@ Emit ==
   /\ emitted' = TRUE
   /\ UNCHANGED <<g, parsed, stack, outcome, opens, rules>>
 
-Next == Step \/ Emit
+Next == BeginFile \/ SkipParsed \/ Circular \/ RejectImport \/ FinishFile \/ Emit
 Spec == Init /\ [][Next]_vars
 
 -----------------------------------------------------------------------------
